@@ -81,7 +81,7 @@ EXHAUSTIVE = {"SX", "SQ1", "SQ2", "SQ3", "RX", "E", "E3"}
 PAR = max(2, min(8, vlib.NCPU // 2))     # concurrent harness processes / J3 JVMs
 ROUNDTRIPS = 3        # per harness shard: states at which the genesis export/import round trip is recorded
 NODE_CAP_QUICK = 80000
-NODE_CAP_THOROUGH = 400000
+NODE_CAP_THOROUGH = 250000
 J1_INVS = "InvC01 InvC02 InvC03 InvC04 InvC05"
 J1_PROPS = "StepC01 StepC02 StepC03 StepC06 StepC08"
 
@@ -334,9 +334,9 @@ def run(pid, tier, seed, replay):
             plans.append(("RX", False, 0, 0, 0))
         if pid in ("C01", "C02", "C03", "C06", "C07"):
             plans.append(("E", False, 0, 0, 0))
-            plans.append(("EL", True, 640, 40, 1500))
+            plans.append(("EL", True, 320, 40, 1500))
         for f in ("S", "A", "B", "R"):
-            plans.append((f, True, 640, 32, 1500))
+            plans.append((f, True, 320, 32, 1500))
     else:
         for f in QUICK[pid]:
             if f in EXHAUSTIVE:
